@@ -188,6 +188,8 @@ func ConcreteBody(tok string) []byte {
 		return []byte("R1;")
 	case "R2":
 		return []byte("R2;")
+	case "JB": // a JSON object larger than the document size limit the sequential driver sets
+		return []byte(`{"a":"` + strings.Repeat("B", 700) + `","v":"JB"}`)
 	}
 	if strings.HasPrefix(tok, "N") {
 		return []byte(tok[1:])
@@ -207,6 +209,12 @@ type XArg struct {
 }
 
 func ConcreteXattr(a XArg) []byte {
+	switch a.T {
+	case "xbad":
+		return []byte(`{"t":`) // not JSON
+	case "xbig":
+		return []byte(fmt.Sprintf(`{"t":%q}`, strings.Repeat("X", 700)))
+	}
 	return []byte(fmt.Sprintf(`{"t":%q}`, a.T))
 }
 
